@@ -564,6 +564,16 @@ Proof.
   - vm_compute. discriminate.
 Qed.
 
+(* whatever is cached: with any set s of records already in memory, the reads of GetItem(key, false), SetItem and
+   Delete are still node records, item headers and keys only *)
+Theorem mut_reads_any_cache cmp t key val prio k s :
+  Forall (key_only t) (reads_of s (get_t cmp t k)) /\
+  Forall (key_only t) (reads_of s (set_touches cmp t key val prio)) /\
+  Forall (key_only t) (reads_of s (del_touches cmp t k)).
+Proof.
+  split; [|split]; apply reads_of_key_only; [apply get_t_in | apply set_touches_in | apply del_touches_in].
+Qed.
+
 Print Assumptions split_t_fst.
 Print Assumptions join_t_fst.
 Print Assumptions union_t_fst.
@@ -582,3 +592,4 @@ Print Assumptions mut_reads_file_spec.
 Print Assumptions fresh_nodup.
 Print Assumptions reads_of_first_only'.
 Print Assumptions ex_set_reads.
+Print Assumptions mut_reads_any_cache.
